@@ -4,7 +4,8 @@ import collections
 from sim import build, case as C, enginesim, gen, kernel
 
 PAGE = gen.PAGE
-VARIANT = 'plain'
+import os
+VARIANT = os.environ.get('VERIF_ENGINE_VARIANT', 'plain')
 
 COMPONENTS = {
     'real': ['flipjump.interpreter.fjm_run.run / _run_featured / _run_fast / _run_native (working tree)',
